@@ -46,6 +46,20 @@ Theorem C13_stored_mismatch_beta1_partial :
 Proof. exact stored_mismatch_beta1. Qed.
 Print Assumptions C13_stored_mismatch_beta1_partial.
 
+(* as repaired (fix F48): the potential kept for an accepted step is the iterate P' that passed the test; it reproduces the kernel
+   of the step's currents to within the tolerance for EVERY step size and drag (the full statement; the identity above describes
+   the next Polyak iterate A', which the code kept before) *)
+Theorem C13_stored_tested_iterate_mismatch :
+  forall (Jof : list vecR -> list sourceR) (edges : list (R * R)) (alpha beta tol tiny : R) (max_it : nat)
+         fuel it err A v lastK prevA A' iters e K' P',
+    0 < tiny ->
+    loop_inv Jof edges alpha beta tiny err A lastK prevA ->
+    screen_loop OpsR Jof edges fuel alpha beta tol tiny max_it it err A v lastK prevA = Converged OpsR A' iters e K' P' ->
+    K' = kernel OpsR (Jof P') edges /\
+    Forall (fun '(d, a) => vnorm OpsR d < tol * Rmax tiny (vnorm OpsR a)) (combine (map2 (vsub OpsR) K' P') A').
+Proof. exact stored_tested_iterate_mismatch. Qed.
+Print Assumptions C13_stored_tested_iterate_mismatch.
+
 (* the loop never reports more than max_iterations_per_step + 1 iterations, and with enough fuel it always
    decides (converged or the RuntimeError) *)
 Theorem C13_iterations_bounded :
